@@ -46,6 +46,7 @@ var families = []family{
 	{name: "cont", srcEnc: []string{"none", "rc4", "aes"}},
 	{name: "calls", srcEnc: []string{"none", "rc4", "aes"}},
 	{name: "stream", srcEnc: []string{"none"}},
+	{name: "parms", srcEnc: []string{"none", "rc4", "aes"}},
 	{name: "streamenc", srcEnc: []string{"rc4", "aes"}},
 }
 
